@@ -9,6 +9,8 @@ var table = map[string]propSpec{
 	"C15": {Level: "model_checking", Parts: []partSpec{{Name: "c15-cache", Bin: "inst"}, {Name: "c15-cache-stmt", Bin: "stmt"}, {Name: "c15-race", Bin: "race"}}},
 	"C16": {Level: "model_checking", Parts: []partSpec{{Name: "c16-replies", Bin: "inst"}, {Name: "cache-bfs", Bin: "p:cache"}}},
 	"C17": {Level: "model_checking", Parts: []partSpec{{Name: "c17-limits", Bin: "inst"}}},
+	"C18": {Level: "model_checking", Parts: []partSpec{{Name: "c18-stateful", Bin: "inst"}}},
+	"C19": {Level: "model_checking", Parts: []partSpec{{Name: "c19-prom", Bin: "inst"}}},
 	"C20": {Level: "exploration", Parts: []partSpec{{Name: "c20-routing", Bin: "p:c20"}, {Name: "c20-roundtrip", Bin: "p:c20"}}},
 	"C03": {Level: "model_checking", Parts: []partSpec{{Name: "cache-bfs", Bin: "p:cache"}}},
 	"C04": {Level: "model_checking", Parts: []partSpec{{Name: "cache-bfs", Bin: "p:cache"}}},
